@@ -1,2 +1,27 @@
-(* C20 - theorems follow in this commit series *)
-From TW Require Import Bytes.
+(* C20 - custom functions: unique registration per (type, name), independent per type,
+   never replaced; the registry survives every later operation (loads, renders, registrations). *)
+From TW Require Import Bytes Values Eval Render Api Registry.
+
+Theorem C20_register_once fs st ty name f :
+  let '(st', ob) := step fs st (OpReg ty name f) in
+  (reg_lookup (g_funcs st) ty name = None ->
+     ob = ObsRegOk /\ reg_lookup (g_funcs st') ty name = Some f) /\
+  (forall g, reg_lookup (g_funcs st) ty name = Some g ->
+     (exists e, ob = ObsErr e) /\ st' = st) /\
+  (forall ty' name', (bytes_eqb ty ty' && bytes_eqb name name') = false ->
+     reg_lookup (g_funcs st') ty' name' = reg_lookup (g_funcs st) ty' name') /\
+  g_cfg st' = g_cfg st /\ g_tpl st' = g_tpl st.
+Proof. exact (register_step fs st ty name f). Qed.
+Print Assumptions C20_register_once.
+
+Theorem C20_registered_stays fs ops st ty name f :
+  reg_lookup (g_funcs st) ty name = Some f ->
+  reg_lookup (g_funcs (final_state fs st ops)) ty name = Some f.
+Proof. exact (registered_stays fs ops st ty name f). Qed.
+Print Assumptions C20_registered_stays.
+
+(* the evaluator consults exactly this registry *)
+Theorem C20_dispatch_uses_registry fs ty name :
+  lookup_custom (mkCtx fs) ty name = reg_lookup fs ty name.
+Proof. exact (reg_lookup_is_lookup_custom fs ty name). Qed.
+Print Assumptions C20_dispatch_uses_registry.
